@@ -141,8 +141,9 @@ def advanced (t : Tracker) (pos : Nat) : Tracker :=
 def numberEnd (t : Tracker) (isOrd : Bool) (text : Word) (value : Value) (forget : Bool) : Tracker :=
   let occ : Occ := ⟨t.mstart, t.mend, text, value, isOrd⟩
   let kind : Kind := if isOrd then .ordinal else .cardinal
-  let last1 : Kind := if t.last != kind then .none else t.last
-  if last1 != .none then
+  -- Rust: `if last != kind { last = None }; if !last.is_none() { … }` — as `kind` is never `None`,
+  -- the test is `last == kind`
+  if t.last == kind then
     { t with queue := t.queue ++ (match t.onHold with | some p => [p] | none => []) ++ [occ],
              onHold := none, last := kind, mstart := t.mend }
   else if forget then
@@ -194,33 +195,42 @@ def outside (cfg : ScanCfg) (s : Scanner) (tok : Tok) : Scanner :=
 def isSkipped (cfg : ScanCfg) (tok : Tok) : Bool :=
   tok.text == ['-'] || tok.text.all cfg.cc.isWhitespace
 
+/-- the word handed to the parser: the lowercase text, or `","` (a forced stop that does not lose
+the token) when the token declares itself unrelated to its predecessor while a number is open -/
+def testWord (cfg : ScanCfg) (s : Scanner) (tok : Tok) : Word :=
+  match s.previous with
+  | some prev => if s.parser.hasNumber && cfg.sep tok prev then [','] else tok.lower
+  | none => tok.lower
+
+/-- the `not_a_number_part` branch of `push` -/
+def pushNan (cfg : ScanCfg) (s : Scanner) (tok : Tok) : Except Fault Scanner :=
+  match (if s.parser.hasNumber then s.numberEnd cfg else .ok s) with
+  | .error f => .error f
+  | .ok s1 => .ok { (s1.outside cfg tok) with previous := some tok }
+
+/-- the `Err(_)` arms of `push` (`s` already holds the parser after the failed push) -/
+def pushRejected (cfg : ScanCfg) (s : Scanner) (pos : Nat) (tok : Tok) : Except Fault Scanner :=
+  if s.parser.hasNumber then
+    match s.numberEnd cfg with
+    | .error f => .error f
+    | .ok s1 =>
+      -- the end of that match may be the start of another
+      let (r2, p2) := s1.parser.push cfg.lang tok.lower
+      let s2 := { s1 with parser := p2 }
+      let s3 := if r2.isNone then { s2 with tracker := s2.tracker.advanced pos } else s2.outside cfg tok
+      .ok { s3 with previous := some tok }
+  else .ok { (s.outside cfg tok) with previous := some tok }
+
 def push (cfg : ScanCfg) (s : Scanner) (pos : Nat) (tok : Tok) : Except Fault Scanner :=
   if isSkipped cfg tok then .ok s
-  else if tok.nan then
-    match (if s.parser.hasNumber then s.numberEnd cfg else .ok s) with
-    | .error f => .error f
-    | .ok s1 => .ok { (s1.outside cfg tok) with previous := some tok }
+  else if tok.nan then pushNan cfg s tok
   else
-    let lo := tok.lower
-    let test : Word :=
-      match s.previous with
-      | some prev => if s.parser.hasNumber && cfg.sep tok prev then [','] else lo
-      | none => lo
-    let (r, p') := s.parser.push cfg.lang test
+    let (r, p') := s.parser.push cfg.lang (testWord cfg s tok)
     let s := { s with parser := p' }
     match r with
     | none => .ok { s with tracker := s.tracker.advanced pos, previous := some tok }
     | some .incomplete => .ok { s with previous := some tok }
-    | some _ =>
-      if s.parser.hasNumber then
-        match s.numberEnd cfg with
-        | .error f => .error f
-        | .ok s1 =>
-          let (r2, p2) := s1.parser.push cfg.lang lo
-          let s2 := { s1 with parser := p2 }
-          let s3 := if r2.isNone then { s2 with tracker := s2.tracker.advanced pos } else s2.outside cfg tok
-          .ok { s3 with previous := some tok }
-      else .ok { (s.outside cfg tok) with previous := some tok }
+    | some _ => pushRejected cfg s pos tok
 
 def finalize (cfg : ScanCfg) (s : Scanner) : Except Fault Scanner :=
   if s.parser.hasNumber then s.numberEnd cfg else .ok s
